@@ -354,6 +354,8 @@ def evaluate(pid, res, known, ledger, repo_root, tier):
         for (r, o, key) in failed:
             by_unit.setdefault(r['label'], []).append((r, o, key))
         for label, items in by_unit.items():
+            # name the most telling obligation of the unit: one stated in the sidecars before a generated policy obligation
+            items = sorted(items, key=lambda it: (it[1]['kind'] == 'policy' and pid != 'C19', it[1]['kind'] == 'precondition'))
             r, o, key = items[0]
             path, reproduced, note = replay.make_replay(pid, r, o, key, repo_root)
             tail = '' if reproduced else ' no-failing-input-found'
